@@ -489,7 +489,7 @@ def c15(tier):
             run.submit(p1_job, "np-pos-n%d-%s" % (n, prof), "MC_Obs", {"prop": "C15", "cfgs": catalogue(n, positive=True), "alphabet": [1, 2, 4], "unit": 2, "maxlen": L},
                    profile=prof, nontrivial_keys=nk, view_label=label)
         # windows longer than the stream / long windows: constant and two-symbol streams (index arithmetic does not depend on data)
-        big = list(range(5, 65)) if tier != "quick" else [5, 6, 7, 8, 12, 16, 31, 32, 33, 63, 64]
+        big = list(range(5, 65)) if tier != "quick" else [5, 6, 7, 8, 10, 12, 16, 20, 24, 31, 32, 33, 40, 41, 48, 63, 64]
         allbig = [c for n in big for c in catalogue(n, m=(n % 3) + 1) if "n" in c or c["k"] in ("Add", "Subtract", "Multiply")]
         for a in ([0], [1]):
             run.submit(p1_job, "np-const%d-%s" % (a[0], prof), "MC_Obs", {"prop": "C15", "cfgs": allbig, "alphabet": a, "unit": 1, "maxlen": 68},
@@ -507,7 +507,7 @@ def c15(tier):
     rnd = random.Random(1515 + run.seed)
     for prof in ("dev", "release"):
         st = []
-        for n in ([5, 8, 13, 16, 31, 32, 33, 63, 64] if tier == "quick" else list(range(5, 65))):
+        for n in ([5, 6, 7, 8, 10, 12, 13, 16, 20, 24, 31, 32, 33, 40, 41, 48, 63, 64] if tier == "quick" else list(range(5, 65))):
             xs = shapes(rnd, n, -30, 30, 2 * n + 12)
             for cfg in catalogue(n, m=(n % 3) + 1):
                 if "n" in cfg or cfg["k"] in ("Add", "Subtract", "Multiply"):
@@ -807,13 +807,15 @@ def c09(tier):
                       "(Nyquist, step, noise; pairs with a common 4000-step tail) of the real views for N in 1..64; non-trivial = every state / line")
 
 def c18_cfgs(n):
-    return [c for c in catalogue(n, positive=True)] + chains2(catalogue(n), sma(n))[:10]
+    # every view over Echo; every view over an inner view that withholds values at the start (Sma) and one that can withhold
+    # them for ever (LaguerreRSI on a constant stream reports nothing)
+    return [c for c in catalogue(n, positive=True)] + chains2(catalogue(n), sma(n)) + chains2(catalogue(n), {"k": "LaguerreRSI", "n": max(n, 2)})
 
 @check("C18")
 def c18(tier):
     run = Run("C18", tier, "exploration")
     exps = []
-    for n in ((1, 3, 16) if tier == "quick" else (1, 3, 16, 64)):
+    for n in ((1, 2, 3, 4, 5, 7, 8, 16, 33) if tier == "quick" else (1, 2, 3, 4, 5, 6, 7, 8, 12, 16, 33, 64)):
         for cfg in c18_cfgs(n):
             L0 = 8 * (2 * n + 4)
             for period, ramp in (([12, 15, 11, 18, 18, 9, 14], 0), ([7], 0), ([5, 5, 9, 9, 9, 2], 0),      # varied, constant, ties
